@@ -14,7 +14,7 @@ LEVEL = "exploration"
 WORKERS = {"quick": 8, "thorough": 16}
 BUDGET = {"quick": 56, "thorough": 600}
 MIN_NONTRIVIAL = {"quick": 150, "thorough": 3000}
-REQUIRED_HOOKS = ["schedule", "scheduling-point", "switch-inside-library-code", "stress-evaluation", "single-preemption-schedule"]
+REQUIRED_HOOKS = ["first-use-schedule", "schedule", "scheduling-point", "switch-inside-library-code", "stress-evaluation", "single-preemption-schedule"]
 RULE = (
     "2-4 threads each create their own Environment and program (runner mixes: all compiled, all interpreted, mixed; different expression texts, or the same text "
     "in every thread) and evaluate their own bindings; every "
@@ -48,6 +48,11 @@ PROGRAMS = [
     ("{'x': k, 'y': [k]}.y[0] + {'x': k}.x + (k in [1, 2, 3] ? 100 : 200)", "k", [1, 2, 3, 5]),
     ("string(k) + '/' + string(double(k)) + '/' + string(uint(k)) + '/' + string(type(k) == int)", "k", [1, 2, 3]),
     ("bytes(k).size() * 10 + size(k + k)", "k", ["\u00e9", "ab", "", "\U0001f431"]),
+    # evaluations that FAIL, each thread with its own key / name / index in the message
+    ("{'washer': 1, 'rivet': 2}[k] + {'a': 1}[k]", "k", ["washer", "rivet", "bolt", "nut"]),
+    ("[1, 2, 3][k] + 10 / (k - 2)", "k", [0, 1, 2, 5]),
+    ("k == 1 ? undeclared_one : (k == 2 ? undeclared_two + 1 : {'m': 1}.nokey)", "k", [1, 2, 3]),
+    ("(k > 1 && unknown_name > 0) || {'x': k}.y > 0", "k", [1, 2, 3]),
 ]
 
 
@@ -76,12 +81,23 @@ def thread_work(runner, prog, bind_list, sink):
             try:
                 v = p.evaluate(MV.cel_env(b))
                 sink.append(["V", core.canon(v)])
-            except c.CELEvalError:
-                sink.append(["E"])
+            except c.CELEvalError as ex:
+                # the error a thread gets must be the error it gets alone: class, arguments and text (addresses masked)
+                sink.append(["E", error_text(ex)])
             except Exception as ex:
                 sink.append(["X", "evaluate", type(ex).__name__, core._msg(ex)[:60]])
 
     return body
+
+
+def error_text(ex):
+    import re
+
+    try:
+        t = f"{ex}|{ex.args!r}"
+    except Exception:
+        t = "<unprintable>"
+    return re.sub(r"0x[0-9a-fA-F]+", "0x?", t)[:400]
 
 
 def solo(runner, prog, bind_list):
@@ -101,21 +117,29 @@ class Explorer:
         self.traces = set()
         self.solo_cache = {}
 
-    def run_schedule(self, kind, specs, policy, label, limits=None):
-        """specs: list of (runner, program); returns True when every thread matched its solo outcome."""
+    def run_schedule(self, kind, specs, policy, label, limits=None, fresh_bindings=None):
+        """specs: list of (runner, program); returns True when every thread matched its solo outcome.
+        fresh_bindings: explicit binding lists (one per thread) holding values this process has never seen: the solo outcomes are
+        then computed AFTER the concurrent run, so that nothing in the process is warmed up for them beforehand."""
         acc = self.acc
         sinks = [[] for _ in specs]
         bodies = []
         solos = []
+        bls = []
         for j, (runner, prog) in enumerate(specs):
-            bl = bindings_for(prog, j, limits[j] if limits else None)
-            key = (runner, prog[0], j, limits[j] if limits else None)
-            if key not in self.solo_cache:
-                self.solo_cache[key] = solo(runner, prog, bl)  # the same calls made alone, single-threaded
-            solos.append(self.solo_cache[key])
+            bl = fresh_bindings[j] if fresh_bindings else bindings_for(prog, j, limits[j] if limits else None)
+            bls.append(bl)
+            if not fresh_bindings:
+                key = (runner, prog[0], j, limits[j] if limits else None)
+                if key not in self.solo_cache:
+                    self.solo_cache[key] = solo(runner, prog, bl)  # the same calls made alone, single-threaded
+                solos.append(self.solo_cache[key])
             bodies.append(thread_work(runner, prog, bl, sinks[j]))
         self.s.install()
         ok_run = self.s.run(bodies, policy)
+        if fresh_bindings:
+            self.s.policy = None
+            solos = [solo(runner, prog, bl) for (runner, prog), bl in zip(specs, bls)]
         acc.hook("schedule")
         acc.hook("scheduling-point", self.s.points)
         inside = [sw for sw in self.s.switches if sw[2] > 0]
@@ -143,7 +167,7 @@ class Explorer:
                 acc.violation(
                     f"thread-runner={specs[j][0]} other-runners={''.join(sorted(set(other)))} phase={'construction' if g[:2] == ['X', 'construction'] else 'evaluate'} obs={diag.oclass(g) if g[0] in 'VEXP' else g[0]} solo={diag.oclass(w) if w[0] in 'VEXP' else w[0]}",
                     f"[{kind} {label}] thread {j} ({specs[j][0]}) evaluating {specs[j][1][0]!r}: call {k} returned {core.jkey(g)[:80]} but {core.jkey(w)[:80]} when run alone; switches {key[:120]}",
-                    {"kind": kind, "specs": [[r, PROGRAMS.index(p)] for r, p in specs], "label": label},
+                    {"kind": kind, "specs": [[r, PROGRAMS.index(p) if p in PROGRAMS else -1] for r, p in specs], "label": label},
                 )
         return good
 
@@ -170,6 +194,86 @@ class Explorer:
             first.setdefault(site, i)
             count[site] = count.get(site, 0) + 1
         return len(log), first, count
+
+
+# ---------------------------------------------------------------- first use of a key
+# Tables filled lazily per key (a zone name, a pattern, a text, a source) are raced on the FIRST use of the key: both threads ask for
+# the same new key at once.  A harness that computes its reference values first, or cycles through a few inputs, warms every such table
+# and never sees it.  Here every schedule draws keys this process has not used yet, and the solo outcomes are taken afterwards.
+class FreshKeys:
+    def __init__(self, rnd):
+        import zoneinfo
+
+        self.zones = sorted(z for z in zoneinfo.available_timezones() if "/" in z and not z.startswith(("Etc/", "posix/", "right/", "SystemV/")))
+        rnd.shuffle(self.zones)
+        self.n = rnd.randrange(10**6)
+
+    def next(self, family):
+        self.n += 1
+        if family == "zone":
+            return ("string", self.zones.pop()) if self.zones else None
+        if family == "pattern":
+            return ("string", "q%dz+" % self.n)
+        if family == "duration":
+            return ("string", "%dh%dm%ds" % (self.n % 9000, self.n % 59, self.n % 57))
+        if family == "timestamp":
+            return ("string", "%04d-%02d-%02dT%02d:%02d:%02dZ" % (1900 + self.n % 300, 1 + self.n % 12, 1 + self.n % 28, self.n % 24, self.n % 60, (self.n // 7) % 60))
+        return ("string", str(10**9 + self.n))
+
+
+FRESH_PROGRAMS = {
+    "zone": ("timestamp('2021-06-15T12:30:00Z').getHours(k) * 100 + timestamp('2021-06-15T12:30:00Z').getMinutes(k) + timestamp('2021-01-15T12:30:00Z').getDayOfYear(k)", "k", []),
+    "pattern": ("(k.matches(k) ? 1 : 0) + ('q12345zzz'.matches(k) ? 10 : 0) + ('zzz' + k).size()", "k", []),
+    "duration": ("string(duration(k) + duration(k)) + '|' + string(duration(k) > duration('100h'))", "k", []),
+    "timestamp": ("timestamp(k).getFullYear() * 10000 + timestamp(k).getDayOfYear() * 10 + timestamp(k).getDayOfWeek()", "k", []),
+    "number": ("int(k) + int(k) % 1000 + size(k)", "k", []),
+}
+
+
+def first_use_schedules(ex, acc, ctx, rnd, seconds):
+    fresh = FreshKeys(rnd)
+    fams = sorted(FRESH_PROGRAMS)
+    t0 = time.monotonic()
+    j = 0
+    profiles = {}
+    while time.monotonic() - t0 < seconds and not ctx.expired():
+        fam = fams[(j + ctx.worker) % len(fams)]
+        ra, rb = [("C", "C"), ("I", "I"), ("C", "I"), ("I", "C")][(j // len(fams) + ctx.worker) % 4]
+        j += 1
+        prog = FRESH_PROGRAMS[fam]
+        pk = (fam, ra)
+        if pk not in profiles:
+            k0 = fresh.next(fam)
+            if k0 is None:
+                continue
+            sink = []
+            ex.s.install()
+            ex.s.site_log = []
+            try:
+                ex.s.run([thread_work(ra, prog, [{"k": k0}], sink)], sched.never)
+                log = ex.s.site_log
+            finally:
+                ex.s.site_log = None
+            first, count = {}, {}
+            for i, site in enumerate(log, 1):
+                first.setdefault(site, i)
+                count[site] = count.get(site, 0) + 1
+            # sites inside the evaluation phase that are executed once or twice, latest first (the per-key work sits at the end)
+            idxs = sorted((i for site, i in first.items() if count[site] <= 2), reverse=True)
+            rest = sorted((i for site, i in first.items() if count[site] > 2), reverse=True)
+            profiles[pk] = [idxs + rest, 0]
+        order, pos = profiles[pk]
+        if pos >= len(order):
+            continue
+        profiles[pk][1] += 1
+        key = fresh.next(fam)
+        key2 = fresh.next(fam)
+        if key is None or key2 is None:
+            continue
+        # both threads meet the same never-seen key first; thread A then goes on to a second new key
+        ok = ex.run_schedule("first-use", [(ra, prog), (rb, prog)], sched.single_preemption(order[pos]), f"{fam} {ra}{rb} point {order[pos]}", fresh_bindings=[[{"k": key}, {"k": key2}], [{"k": key}]])
+        acc.hook("first-use-schedule")
+        acc.cell("first-use", fam, ra + rb, "ok" if ok else "differ")
 
 
 def stress(acc, rnd, seconds, nthreads=4):
@@ -230,7 +334,7 @@ def run(ctx):
     # then a stride over the remaining points.  A evaluates two activations (the second one sees what B left behind), B one.
     pairs = [("C", "C"), ("C", "I"), ("I", "C"), ("I", "I")]
     npairs = 3 if not ctx.thorough else 20
-    budget_each = t_sched * 0.62 / max(1, npairs)
+    budget_each = t_sched * 0.5 / max(1, npairs)
     for pi in range(npairs):
         ra, rb = pairs[(pi + ctx.worker) % len(pairs)]
         # every program is thread A's program in some worker; two pairs in three run the SAME expression text in both threads
@@ -268,10 +372,12 @@ def run(ctx):
         acc.extra["stride_points_preempted"] = acc.extra.get("stride_points_preempted", 0) + done["stride"]
         if done["rare"] == len(rare) and done["common"] == len(common):
             acc.exhaustive.append(f"single preemption at the first occurrence of every distinct source line of one {ra}{rb} pair ({len(first)} sites)")
+    # (a') first use of a key
+    first_use_schedules(ex, acc, ctx, rnd, t_sched * 0.14)
     # (b) PCT-style and (c) random walks
     t1 = time.monotonic()
     j = 0
-    while time.monotonic() - t1 < t_sched * 0.3 and not ctx.expired():
+    while time.monotonic() - t1 < t_sched * 0.26 and not ctx.expired():
         j += 1
         nth = rnd.choice([2, 2, 3, 4])
         mix = rnd.choice(["CCCC", "IIII", "CICI", "ICCI"])[:nth]
@@ -298,6 +404,18 @@ def replay(case):
     core.celpy()
     acc = core.Acc()
     rnd = random.Random(0)
+    if case["kind"] == "first-use":
+
+        class C:
+            worker, seed = 0, 0
+
+            def expired(self):
+                return False
+
+        ex = Explorer(acc)
+        first_use_schedules(ex, acc, C(), rnd, 20.0)
+        ex.s.uninstall()
+        return not acc.violations, "\n".join(v["what"] for v in acc.violations[:3]) or "no interference reproduced in the replay budget"
     specs = [(r, PROGRAMS[i]) for r, i in case["specs"]]
     if case["kind"] == "stress":
         stress(acc, rnd, 5.0, nthreads=len(specs))
